@@ -370,7 +370,7 @@ def cover (a : Args) : Option String := do
 def defects (a : Args) : Option String := do
   let traces ← (a.get? "traces") >>= parseLines?
   let out := (List.range traces.length).map fun i => ";".intercalate ((Defects.defectsOf traces i).map enc)
-  some s!"defects={"|".intercalate out} crisp={showBool (Defects.angleCrisp traces (3/200))}"
+  some s!"defects={"|".intercalate out} crisp={showBool (Defects.angleCrisp traces (3/200) && Defects.contactsApart traces (1/400))}"
 
 /-- geometry kinds on the wire: 0 line, 1 empty line, 2 unmergeable multi-line, 3 mergeable
 multi-line, 4 None, 5 other geometry type -/
